@@ -47,52 +47,70 @@ def rule_source(ctx, rule):
              strip_epoch(e.data['key'][1]) == ('attr', self_t, attr)]
         return c[0].data['value'] if c else None
 
-    # ---- request(n) / subscribe(s): feeders exist afterwards
-    for meth, coro, queue_attr in (('request', 'queue_next_n', True), ('subscribe', 'feed_subscriber', False)):
-        f = K.lookup(meth)
-        if f is None:
-            raise AnalysisError('%s: StreamFromGenerator.%s vanished' % (rule, meth))
-        ok = True
-        why = ''
-        n = 0
+    # ---- request(n) / subscribe(s): both feeders run once the subscriber has subscribed and asked for something.
+    # The credit feeder is started by request(); the delivery feeder by subscribe() or, lazily, by request().
+    def starter_check(f, coro):
+        """(spawns anywhere?, ok, why) for one starting method"""
         feeder_attr = None
-        for p in ctx.paths(f, K, inline_depth=2):
-            if p.outcome != 'return':
-                continue
-            n += 1
+        paths = [p for p in ctx.paths(f, K, inline_depth=2) if p.outcome == 'return']
+        for p in paths:
             sp = _spawned(p, coro)
             stores = [e for e in p.events if e.kind == 'store' and e.data['target'][0] == 'attr' and
                       e.data['target'][1] == self_t and sp and
                       strip_epoch(e.data['value'].term) == strip_epoch(sp[0].data['value'].term)]
             if stores:
                 feeder_attr = stores[0].data['target'][2]
-        for p in ctx.paths(f, K, inline_depth=2):
-            if p.outcome != 'return':
-                continue
+        if feeder_attr is None:
+            return False, True, ''
+        ok, why = True, ''
+        for p in paths:
             sp = _spawned(p, coro)
-            had = attr_isnone(p, feeder_attr) if feeder_attr else None
-            if feeder_attr is None:
-                ok, why = False, 'no path starts the %s task and keeps it' % coro
-                break
+            had = attr_isnone(p, feeder_attr)
             if had is True and len(sp) != 1:
                 ok, why = False, 'without a running %s task none is started' % coro
             if had is False and sp:
                 ok, why = False, 'a second %s task is started although one is running' % coro
             if had is None:
                 ok, why = False, 'the %s task is started without looking whether one is running' % coro
-            if queue_attr:
-                puts = [e for e in p.events if e.kind == 'call' and e.data.get('name') in ('put_nowait', 'put') and
-                        e.data.get('args') and strip_epoch(e.data['args'][0].term) == ('param', f.qualname,
-                                                                                       f.params()[1])]
-                if len(puts) != 1:
-                    ok, why = False, 'request(n) queues n %d times' % len(puts)
-            else:
-                subs = [e for e in p.events if e.kind == 'call' and e.data.get('name') == 'on_subscribe']
-                if len(subs) != 1:
-                    ok, why = False, 'subscribe() calls on_subscribe %d times' % len(subs)
-        rep.add(rule, 'StreamFromGenerator.%s / %s running afterwards' % (meth, coro), f, ok and n > 0,
-                why or ('n queued once, credit feeder started iff none is running' if queue_attr else
-                        'on_subscribe once, delivery feeder started iff none is running'))
+        return True, ok, why
+
+    f_req = K.lookup('request')
+    f_sub = K.lookup('subscribe')
+    if f_req is None or f_sub is None:
+        raise AnalysisError('%s: StreamFromGenerator.request / subscribe vanished' % rule)
+    spawns_req, ok_r, why_r = starter_check(f_req, 'queue_next_n')
+    n_req = 0
+    for p in ctx.paths(f_req, K, inline_depth=2):
+        if p.outcome != 'return':
+            continue
+        n_req += 1
+        puts = [e for e in p.events if e.kind == 'call' and e.data.get('name') in ('put_nowait', 'put') and
+                e.data.get('args') and strip_epoch(e.data['args'][0].term) == ('param', f_req.qualname,
+                                                                               f_req.params()[1])]
+        if len(puts) != 1:
+            ok_r, why_r = False, 'request(n) queues n %d times' % len(puts)
+    if not spawns_req:
+        ok_r, why_r = False, 'no path of request() starts the queue_next_n task and keeps it'
+    rep.add(rule, 'StreamFromGenerator.request / queue_next_n running afterwards', f_req, ok_r and n_req > 0,
+            why_r or 'n queued once, credit feeder started iff none is running')
+    s_sub, ok_s, why_s = starter_check(f_sub, 'feed_subscriber')
+    s_req, ok_q, why_q = starter_check(f_req, 'feed_subscriber')
+    ok_d, why_d = True, ''
+    if not s_sub and not s_req:
+        ok_d, why_d = False, 'neither subscribe() nor request() starts the feed_subscriber task: nothing delivers'
+    elif not (ok_s and ok_q):
+        ok_d, why_d = False, why_s or why_q
+    n_sub = 0
+    for p in ctx.paths(f_sub, K, inline_depth=2):
+        if p.outcome != 'return':
+            continue
+        n_sub += 1
+        subs = [e for e in p.events if e.kind == 'call' and e.data.get('name') == 'on_subscribe']
+        if len(subs) != 1:
+            ok_d, why_d = False, 'subscribe() calls on_subscribe %d times' % len(subs)
+    rep.add(rule, 'StreamFromGenerator.subscribe / feed_subscriber running afterwards', f_sub, ok_d and n_sub > 0,
+            why_d or 'on_subscribe once; delivery feeder started iff none is running (by %s)' % (
+                'subscribe()' if s_sub else 'the first request()'))
 
     # ---- queue_next_n
     f = K.lookup('queue_next_n')
